@@ -109,6 +109,11 @@ class Registry:
         if fi is None or ordinal is None:
             return None
         c = self.contracts.get(fi.qualname)
+        if c is None or not c["loops"]:
+            # inherited method verified through a subclass: the subclass contract carries the loop specifications
+            alias = getattr(self, "alias", {}).get(fi.qualname)
+            if alias is not None:
+                c = self.contracts.get(alias)
         if c is None:
             return None
         return c["loops"].get(ordinal)
@@ -813,3 +818,10 @@ def _spec_vsum(self, e, fr):
 
 X.Interp.spec_norm_cdf = _spec_norm_cdf
 X.Interp.spec_vsum = _spec_vsum
+
+
+def _spec_t_ppf(self, e, fr):
+    return self.ctx.models.ext["scipy.stats.t.ppf"](self.ctx.models, self, [self.ev(a, fr) for a in e.args], {}, fr, e)
+
+
+X.Interp.spec_t_ppf = _spec_t_ppf
